@@ -145,6 +145,45 @@ fn check(d: &Doc, o: &RenderOpts, what: &str) -> Option<String> {
     None
 }
 
+
+/// C28 "break-only text appears exactly when its group is broken": group(A · X · line · B) has a single break
+/// opportunity, so it is broken iff B lands on a later line than A; X is IfBreak / IfBreakPad / IfFlatPad.
+fn check_if_break(gn: &mut Gen) -> Option<String> {
+    let kind = gn.g.below(3);
+    let w = 1 + gn.g.below(3) as u32;
+    let x = match kind { 0 => if_break("<IB>"), 1 => if_break_pad(w), _ => if_flat_pad(w) };
+    let a_txt = if gn.g.below(2) == 0 { "Aa".to_string() } else { "Aaaaaaaaaa".to_string() };
+    let b_txt = if gn.g.below(2) == 0 { "Bb".to_string() } else { "Bbbbbbbbbb".to_string() };
+    let mut g = group(concat(vec![anchored(a_txt.as_str(), 1, 1), x, line(), anchored(b_txt.as_str(), 1, 2)]));
+    if gn.g.below(2) == 0 { g = nest(g); }
+    if gn.g.below(3) == 0 { g = force_flat(g); }
+    let prefix = "p".repeat(gn.g.below(12) as usize);
+    let d = concat(vec![text(prefix.as_str()), g, text(";")]);
+    let o = RenderOpts { max_width: 8 + gn.g.below(20) as usize, indent_width: gn.g.below(4) as usize, newline: if gn.g.below(3) == 0 { "\r\n" } else { "\n" }, strip_trailing_whitespace: false };
+    let r = render_with_anchors(&d, &o);
+    if r.anchors.len() != 2 { return None; }
+    let (a, b) = (&r.anchors[0], &r.anchors[1]);
+    let broken = b.dst_line > a.dst_line;
+    let between: String = {
+        let chars: Vec<char> = r.text.chars().collect();
+        let ia = find(&chars, &a_txt.chars().collect::<Vec<_>>(), 0)? + a_txt.chars().count();
+        let ib = find(&chars, &b_txt.chars().collect::<Vec<_>>(), 0)?;
+        if ib < ia { return None; }
+        chars[ia..ib].iter().collect()
+    };
+    let nl = o.newline;
+    let spaces_before_nl = between.split(nl).next().unwrap_or("").chars().filter(|c| *c == ' ').count() as u32;
+    let (ok, expected) = match kind {
+        0 => (between.contains("<IB>") == broken, format!("<IB> present iff broken (broken={})", broken)),
+        1 => if broken { (spaces_before_nl == w, format!("{} pad spaces before the newline (broken)", w)) } else { (between == " ", "only the line separator (flat)".to_string()) },
+        _ => if broken { (spaces_before_nl == 0, "no pad before the newline (broken)".to_string()) } else { (between.chars().count() as u32 == w + 1, format!("{} pad spaces + separator (flat)", w)) },
+    };
+    if ok { return None; }
+    Some(format!(
+        "{{\"fn\":\"render_frame\",\"why\":\"break-only / flat-only text does not follow the group's mode\",\"doc\":\"{}\",\"opts\":{{\"max_width\":{},\"indent_width\":{},\"newline\":\"{}\",\"strip_trailing_whitespace\":false}},\"output\":\"{}\",\"actual\":\"between A and B: '{}'\",\"expected\":\"{}\"}}",
+        esc(&format!("{:?}", d)), o.max_width, o.indent_width, esc(o.newline), esc(&r.text), esc(&between), esc(&expected)))
+}
+
 fn witness() -> Doc {
     // DESIGN section 7, F-C28-col: a token on the same output line after a block comment containing '\n'
     concat(vec![
@@ -182,6 +221,11 @@ fn main() {
         n += 1;
         vp_case(format!("{{\"doc\":\"{}\",\"max_width\":{},\"indent_width\":{},\"newline\":\"{}\"}}", esc(&format!("{:?}", d)), o.max_width, o.indent_width, esc(o.newline)));
         if let Some(j) = check(&d, &o, "render_with_anchors") {
+            println!("FOUND {}", j);
+            std::process::exit(1);
+        }
+        vp_case("\"if_break structured case\"".to_string());
+        if let Some(j) = check_if_break(&mut gn) {
             println!("FOUND {}", j);
             std::process::exit(1);
         }
